@@ -323,8 +323,14 @@ def gen_config(rng):
             if c not in cores:
                 cores.append(c)
         required = [configured_form(c, rng) for c in cores]
-    return {"title": title, "require_calling": required, "require_called": rng.random() < 0.5,
-            "handler_bound": rng.random() < 0.72}
+    cfg = {"title": title, "require_calling": required, "require_called": rng.random() < 0.5,
+           "handler_bound": rng.random() < 0.72}
+    # how the policy got to its final value (separate stream: the other fields keep their values)
+    import random as _r
+    h = _r.Random(sha([title, required]))
+    cfg["cfg_history"] = h.choice(["direct", "direct", "self-assign", "get-extend-assign", "failed-assign-type", "failed-assign-value",
+                                   "assign-twice"])
+    return cfg
 
 
 def gen_identity(rng):
@@ -423,8 +429,30 @@ class Recorder:
 def make_server(cfg, rec):
     from pynetdicom import evt
     ae = harness.make_ae(cfg["title"], timeouts=TIMEOUTS, supported=[ps38.VERIFICATION])
-    ae.require_calling_aet = list(cfg["require_calling"])
+    want = list(cfg["require_calling"])
+    hist = cfg.get("cfg_history", "direct")
+    if hist == "get-extend-assign" and len(want) >= 2:
+        ae.require_calling_aet = want[:-1]
+        lst = ae.require_calling_aet          # the application reads the list, extends it and assigns it back
+        lst = lst if isinstance(lst, list) else list(lst)
+        lst.append(want[-1])
+        ae.require_calling_aet = lst
+    elif hist == "assign-twice":
+        ae.require_calling_aet = ["SOMEONE-ELSE"]
+        ae.require_calling_aet = want
+    else:
+        ae.require_calling_aet = want
+    if hist == "self-assign":
+        ae.require_calling_aet = ae.require_calling_aet
+    elif hist in ("failed-assign-type", "failed-assign-value"):
+        bad = [12345] if hist == "failed-assign-type" else ["SEVENTEEN-CHARS-17"]
+        try:
+            ae.require_calling_aet = bad        # refused by the setter: the policy in force must not change
+            rec.log.append(("CFG-BAD-ASSIGN-ACCEPTED", 0))
+        except (TypeError, ValueError):
+            pass
     ae.require_called_aet = bool(cfg["require_called"])
+    ae.require_called_aet = ae.require_called_aet
 
     def dimse_handler(name):
         def h(event):
